@@ -26,7 +26,7 @@ PROFILES = {
                    p_fault_free=0.6, p_not_honour=0.15, p_no_maxres=0.3, p_ties=0.15, fault_kinds=["crash"], p_nodelay_false=0.05)), ],
     "C05": [(6, _p(world="mem", kinds=["sync_hb", "sync_hb", "sync_hb_custom", "sync_hb_custom", "dehb"], p_fault_free=0.4, p_nan_metric_sync=0.25,
                    fault_kinds=["crash"], p_ties=0.15, p_tiny_space=0.2, p_nodelay_false=0.05)), ],
-    "C06": [(6, _p(world="mem", kinds=MF, p_tiny_space=0.35, p_pte=0.7, p_fault_free=0.5, p_restrict=0.25, p_nan_metric=0.3)),
+    "C06": [(6, _p(world="mem", kinds=MF, p_tiny_space=0.35, p_pte=0.7, p_fault_free=0.5, p_restrict=0.25, p_nan_metric=0.3, p_tiny_values=0.2)),
             (1, _p(world="mem", kinds=["fifo_bo", "fifo_bo", "hb_promotion_bo", "hb_stopping_bo"], p_tiny_space=0.8, p_pte=0.7, p_fault_free=0.5,
                    fault_kinds=["crash"], p_restrict=0.3, p_nan_metric=0.6, max_trials=14)), ],
     "C18": [(5, _p(world="local", kinds=MF, p_payload=0.8, p_rejects=0.5, p_noise=0.8, p_extra=0.5, max_trials=10)),
